@@ -1,35 +1,23 @@
-"""Writes /verif/MANIFEST.json from the table below (kept in one place so it stays valid)."""
-import json, os
+"""Writes /verif/MANIFEST.json from the per-property fragments harness/manifest.d/Cnn.json
+(keys: technique, text, note, ref; optional: engine_note) so that it stays valid.
+Properties without a fragment are listed under not_applicable with the reason in
+harness/manifest.d/NA.json (a map id -> reason) or a default."""
+import glob, json, os
 V = os.path.dirname(os.path.dirname(os.path.abspath(__file__)))
-CHECKS = {
- "C18": dict(
-   technique="Coq proof (bijection invariant by induction over histories + refinement to a live-pairs spec) tied by behavioural correspondence (exhaustive small scope + random histories evaluated with vm_compute)",
-   text="Theorems in coq/props/C18.v (closed under the global context): the two dictionaries stay exact inverses after every history from every accepted constructor argument; every mutator step refines the plain list-of-live-pairs specification with the same outcome (KeyError iff absent); insert displaces exactly the pairs sharing key or value; len/iter/items reflect the live pairs; the constructor rejects iff the mapping is not injective. The model is hand-written Gallina mirroring utils.py statement by statement; each run re-ties it to /repo by running the real BiMap and the model on the same histories and by evaluating the specification on the implementation's own observations.",
-   note="Trusted: Coq kernel/vm_compute; the correspondence samples (exhaustive over small universes, random beyond); Python ==/hash of the sampled keys behaves as equality. None keys are excluded by the property.",
-   ref="4/C18"),
- "C16": dict(
-   technique="Coq proof over unbounded Z (Node indexing = Python sequence semantics, by lia/case analysis) tied by behavioural correspondence (exhaustive small n and bounds, random large values, handles from add/delete histories and builder calls)",
-   text="Theorems in coq/props/C16.v (closed under the global context), for every n >= 0 and all integers: iteration yields offsets 0..n-1 in order; integer indexing equals range(n)[i] (IndexError outside -n..n-1); slicing with any positive step equals range(n)[start:stop:step] with positive overflow clamped and IndexError for a bound below -n (also stated pointwise as membership); tuple indexing; unknown count: non-negative ints work, iteration raises ValueError; ports compare by (node index, offset, direction). The model mirrors node_port.py; each run re-ties it to /repo by evaluating the same queries on real handles, including handles returned by add_node inside add/delete histories (index reuse) and by every builder call the property lists, whose expected count is the operation's num_out.",
-   note="Trusted: Coq kernel/vm_compute; the correspondence samples; 'handles returned by builders know their count' is monitored on builder scenarios (not a theorem) with the count read from op.num_out; hash equality is only observed (equal ports hash equal).",
-   ref="4/C16"),
- "C19": dict(
-   technique="Coq proof (forward dictionary fold = pointwise backwards reading of the write history, by induction over entries) tied by behavioural correspondence on generated shots; multi-shot strictness and counts monitored in Coq",
-   text="Theorems in coq/props/C19.v (closed under the global context): for every shot whose values are bits, to_register_bits returns, for every register, exactly the pointwise reading of the entry history (latest indexed write to position j after the last whole-register write, else that write's bit j, else 0; length = max(whole length, 1 + highest later index)); it raises ValueError iff some entry carries a non-bit; collate_tags gives per tag all values in entry order. Multi-shot register_bitstrings/register_counts (strict_names, strict_lengths) and collated_counts are modelled and evaluated in Coq against a separately written specification (per-shot strings in shot order; reject iff register sets / lengths differ; flatten+concatenate) on every generated case: monitored, not yet theorems. Three genuine defects were repaired in /repo (fix: commits, known_findings.txt).",
-   note="Trusted: Coq kernel/vm_compute; sampling correspondence; tag alphabet = printable ASCII (Unicode \\w/\\d and '$'-before-newline are outside the model); the regex is re-implemented by hand (parse_tag) and compared with re.match on generated tags.",
-   ref="4/C19"),
- "C09": dict(
-   technique="Coq proof (header decoder characterised for all byte strings + in-Coq sweep of all 2^16 format/flag pairs; envelope round trip modulo zstd/JSON oracle hypotheses) tied by behavioural correspondence incl. an exhaustive run of the real header decoder",
-   text="Theorems in coq/props/C09.v (closed under the global context; zstd and the JSON text codec appear only as Section hypotheses visible in the statements): header_to_bytes lays out magic, format byte and flags with bit 0 = compressed, bits 7,6 = 0,1; header_from_bytes accepts a byte string iff it is MAGIC ++ [known format; flags] ++ rest and then decodes format and flags&1, for ALL byte strings, and returns ValueError otherwise (short, other magic, unknown format); all 2^16 pairs swept inside Coq; read_envelope(make_envelope p c) = p for every JSON configuration (any level or none) given decompress.compress = id and parse.dump = id; to_str only for ASCII-printable formats. Each run executes the real EnvelopeHeader.from_bytes on all 65536 pairs and all truncations and compares accepted set and decoded fields with the model in Coq, and runs to_bytes/to_str/from_bytes/from_str on generated packages and mutated envelopes.",
-   note="Trusted: Coq kernel/vm_compute; pyzstd and pydantic as oracles (their per-case answers are observed and fed to the model); MODULE formats are not encodable offline (native module absent) and are only modelled on the decode side; document-level round trip of modules/extensions themselves is C02/C10.",
-   ref="4/C09"),
-}
-NA = []
+
+
 def main():
-    import json as _j
-    allp = [_j.loads(l)["id"] for l in open(os.path.join(V, "properties.jsonl"))]
-    NA[:] = [{"property_id": p, "reason": "check not built yet (work in progress; see DESIGN.md section 4 for the plan)"} for p in allp if p not in CHECKS]
+    allp = [json.loads(l)["id"] for l in open(os.path.join(V, "properties.jsonl"))]
+    frags = {}
+    for f in sorted(glob.glob(os.path.join(V, "harness", "manifest.d", "C*.json"))):
+        frags[os.path.basename(f)[:-5]] = json.load(open(f))
+    na_path = os.path.join(V, "harness", "manifest.d", "NA.json")
+    na_reasons = json.load(open(na_path)) if os.path.exists(na_path) else {}
+    hooks_path = os.path.join(V, "harness", "manifest.d", "hooks.json")
+    hooks_extra = json.load(open(hooks_path)) if os.path.exists(hooks_path) else {}
     checks = []
-    for pid, c in sorted(CHECKS.items()):
+    for pid, c in sorted(frags.items()):
+        assert pid in allp, pid
         checks.append({
             "property_id": pid,
             "quick_cmd": f"./check {pid} --tier quick",
@@ -41,18 +29,25 @@ def main():
             "level_note": c["note"],
             "technique": c["technique"],
         })
+    na = [{"property_id": p, "reason": na_reasons.get(p, "check not built yet (work in progress; see DESIGN.md section 4 for the plan)")}
+          for p in allp if p not in frags]
+    hooks = {"guard": "HUGR_PY_VERIF",
+             "enable": "no hooks are needed: every observation goes through hugr-py's public API (checks export HUGR_PY_VERIF=1 for uniformity)",
+             "baseline_off_cmd": "cd /repo && /venv/bin/python -m pytest -ra -q -p no:cacheprovider --timeout=900 --continue-on-collection-errors",
+             "source_commits": [], "add_only": True}
+    hooks.update(hooks_extra)
     m = {
         "version": 1,
         "setup_cmd": "cd /verif/coq && coq_makefile -f _CoqProject -o Makefile && make -j12",
-        "hooks": {"guard": "HUGR_PY_VERIF", "enable": "no hooks are needed: every observation goes through hugr-py's public API (checks export HUGR_PY_VERIF=1 for uniformity)",
-                  "baseline_off_cmd": "cd /repo && /venv/bin/python -m pytest -ra -q -p no:cacheprovider --timeout=900 --continue-on-collection-errors",
-                  "source_commits": [], "add_only": True},
-        "engines": [{"name": "coq-correspondence", "path": "/verif/check", "serves_properties": sorted(CHECKS),
+        "hooks": hooks,
+        "engines": [{"name": "coq-correspondence", "path": "/verif/check", "serves_properties": sorted(frags),
                      "kind_free_text": "Coq 8.16.1 development (coq/) with property theorems in coq/props; harness/ runs hugr-py from /repo's working tree, writes cases_*.v with inputs and observed outputs, Coq evaluates model==implementation (corr) and spec(implementation) (mon) by vm_compute"}],
         "checks": checks,
-        "not_applicable": NA,
+        "not_applicable": na,
         "notes": "See DESIGN.md. Known findings: known_findings.txt.",
     }
     json.dump(m, open(os.path.join(V, "MANIFEST.json"), "w"), indent=1)
+
+
 if __name__ == "__main__":
     main()
